@@ -9,5 +9,5 @@ CONSTANTS
   MaxReset = ${MaxReset}
 INIT SimInit
 NEXT SimNext
-INVARIANTS TypeOK Exact AddEquiv LastIsNewest Refinement TraceOut
+INVARIANTS Exact TraceOut
 CHECK_DEADLOCK FALSE
